@@ -29,6 +29,7 @@ def plan(tier, seed):
     cs = sorted(data.countries())
     sh = [{"kind": "iban", "countries": c, "tier": tier, "_name": f"iban-{i}"} for i, c in enumerate(gen.chunk(cs, 14 if tier == "quick" else 42))]
     sh.append({"kind": "bic", "tier": tier, "_name": "bic"})
+    sh.append({"kind": "contracts", "tier": tier, "_name": "contracts"})
     return sh
 
 
@@ -111,6 +112,10 @@ def run_bic(shard, mon, S):
 
 
 def run_shard(shard, out_base):
+    if shard.get("kind") == "contracts":
+        from vf import suite  # noqa: PLC0415
+
+        return suite.run_contract_shard("C11", out_base)
     mon = Mon("C11")
     S = judge.lib()
     (run_iban if shard["kind"] == "iban" else run_bic)(shard, mon, S)
